@@ -72,12 +72,12 @@ class ParseBoundsHooks(QHooks):
             self.done += 1
 
 
-def parse_bounds_sites(db, rep):
+def parse_bounds_sites(db, rep, maxlen=3):
     import itertools
     prog = db.program('qmail-inject')
     fn = db.fn('token822.c', 'token822_parse')
     alpha = 'a\\()"[]. '
-    strings = [''.join(t) for n in (0, 1, 2, 3) for t in itertools.product(alpha, repeat=n)]
+    strings = [''.join(t) for n in range(0, maxlen + 1) for t in itertools.product(alpha, repeat=n)]
     strings += ['[\\a]', '(\\a)', '"\\a"', 'a\\b', '[a\\]]', '((a)\\()', '<a@[\\1\\2]>', '"\\"', '[\\', 'a\\', '(a(b)c)d', '"a b"@[1.2]', 'a\\"b', '[\\]\\]]']
     bad = None
     ndone = 0
@@ -98,7 +98,7 @@ def parse_bounds_sites(db, rep):
     rep.count_states(st_total, st_total)
     if bad is None and ndone < len(strings):
         raise AnalysisBroken('token822_parse: %d of %d inputs reached a return' % (ndone, len(strings)))
-    return {'token822_parse:second-pass-stays-inside-the-first-pass-reservation': (bad is None, 'token822.c:token822_parse', bad[0] if bad else '%d inputs (all strings up to 3 bytes over %r, and quoted pairs in every context)' % (len(strings), alpha), bad[1] if bad else [])}
+    return {'token822_parse:second-pass-stays-inside-the-first-pass-reservation': (bad is None, 'token822.c:token822_parse', bad[0] if bad else '%d inputs (all strings up to %d bytes over %r, and quoted pairs in every context)' % (len(strings), maxlen, alpha), bad[1] if bad else [])}
 
 
 
@@ -289,7 +289,7 @@ def run(ctx):
 
     # ---------------------------------------------------------------- 5. limit guards
     r6 = rep.rule('C20.6-two-pass-parsers', 'R-BOUND', 'token822_parse: for every header text up to 3 bytes over the lexically relevant bytes (and quoted pairs in comments, quoted strings, domain literals and atoms) the filling pass stores only inside the token and text buffers sized by the counting pass, and no pass reads beyond the field')
-    for inst, v in sorted(parse_bounds_sites(db, rep).items()):
+    for inst, v in sorted(parse_bounds_sites(db, rep, maxlen=ctx.deep(3, 4)).items()):
         r6.check(v[0], inst, v[1], v[2], v[3])
     r6.expect_min(1)
     rep.exhaustive_rules.append('C20.6-two-pass-parsers')
